@@ -2,9 +2,10 @@
 import os
 import re
 import framework as fw
+import c20_opts   # round 6: to_nsq main loop end-to-end leg + option surface (sub-builder `relay`)
 
-TIE = ["Nsq.Tie.ToolsSplit", "Nsq.Tie.ToolsRelay"]
-PROPS = ["Nsq.Props.C20"]
+TIE = ["Nsq.Tie.ToolsSplit", "Nsq.Tie.ToolsRelay"] + c20_opts.TIE
+PROPS = ["Nsq.Props.C20", "Nsq.Props.C20GiveUp"] + c20_opts.PROPS
 CORPUS = os.path.join(fw.ROOT, "corpus", "C20")
 F5_KEY = "to_nsq-unterminated-final-record"
 
@@ -33,7 +34,14 @@ def run_tonsq(ctx, binp, label, replay=None):
     env = {"VERIF_SEED": ctx.seed, "VERIF_N": ctx.budget(3000, 60000), "VERIF_OUT": out}
     if replay:
         env["VF_E8_REPLAY"] = replay
-    rc, log = ctx.run_cmd([binp, "-test.run", "^TestVerifToNsqCorr$", "-test.count=1"], timeout=ctx.budget(300, 1800), env=env)
+    cmd = [binp, "-test.run", "^TestVerifToNsqCorr$", "-test.count=1", "-test.timeout=0"]
+    rc, log = ctx.run_cmd(cmd, timeout=ctx.budget(300, 1800), env=env)
+    if (rc != 0 or "ORACLE-DONE" not in log) and "ORACLE-FAIL" not in log:
+        # infrastructure failure (seen once in six thorough runs on a loaded machine, no oracle line): keep the
+        # log tail in the evidence and run the leg once more before calling the harness broken
+        ctx.log("to_nsq harness ended without a verdict (%s), retrying once:\n%s" % (label, log[-800:]))
+        ctx.corr.setdefault("to_nsq_harness_retries", []).append(log[-300:])
+        rc, log = ctx.run_cmd(cmd, timeout=ctx.budget(300, 1800), env=env)
     if rc != 0 or "ORACLE-DONE" not in log:
         ctx.log("to_nsq harness failed (%s):\n%s" % (label, log[-1500:]))
         return None, log
@@ -169,6 +177,8 @@ def run(ctx):
                 "destinations (HTTP status 200..599, stall, refused connection; nsqd OK / E_PUB_FAILED / dropped "
                 "connection / refused connection) in every mode, GET and POST, sampling 1.0/0.5/0.0, JSON filters")
     gen_ok, _ = ctx.gen("e8_relay")
+    ctx.gen(c20_opts.SPEC)
+    c20_opts.declare(ctx)
     built = []
     for mod in TIE + PROPS:
         ok, log = ctx.lean_build([mod])
@@ -183,7 +193,7 @@ def run(ctx):
     if not ctx.build_driver("e8"):
         corr_broken.append("driver drv_e8 does not build")
     # ---- to_nsq
-    b_tonsq = ctx.go_test_binary("apps/to_nsq", ["e8/tonsq_test.go", "e8/stub_nsqd.go"], "e8tonsq", pkgname="main")
+    b_tonsq = ctx.go_test_binary("apps/to_nsq", ["e8/tonsq_test.go", "e8/tonsq_e2e_test.go", "e8/stub_nsqd.go"], "e8tonsq", pkgname="main")
     if not b_tonsq:
         ctx.broken_ties.append("harness e8/tonsq_test.go does not compile against the current tree")
     elif ctx.replay_in:
@@ -221,18 +231,22 @@ def run(ctx):
                     sizes["unterminated"] += 1
             ctx.corr["to_nsq_inputs"] = sizes
             ctx.add_sample({"op": res[0][0], "impl": res[1][0]})
+        c20_opts.tonsq_e2e(ctx, b_tonsq, corr_broken)
     # ---- relays
     if not ctx.replay_in:
-        b = ctx.go_test_binary("apps/nsq_to_nsq", ["e8/n2n_test.go", "e8/stub_nsqd.go"], "e8n2n", pkgname="main")
+        b = ctx.go_test_binary("apps/nsq_to_nsq", ["e8/n2n_test.go", "e8/n2n_opts_test.go", "e8/stub_nsqd.go"], "e8n2n", pkgname="main")
         if not b:
             ctx.broken_ties.append("harness e8/n2n_test.go does not compile against the current tree")
         else:
             run_relay(ctx, b, "TestVerifN2NCorr", "n2n", corr_broken, ctx.budget(720, 7200))
-        b = ctx.go_test_binary("apps/nsq_to_http", ["e8/n2h_test.go", "e8/stub_nsqd.go"], "e8n2h", pkgname="main")
+            c20_opts.opts_leg(ctx, b, "TestVerifN2NOpts", "n2n_opts", corr_broken)
+        b = ctx.go_test_binary("apps/nsq_to_http", ["e8/n2h_test.go", "e8/n2h_opts_test.go", "e8/stub_nsqd.go"], "e8n2h", pkgname="main")
         if not b:
             ctx.broken_ties.append("harness e8/n2h_test.go does not compile against the current tree")
         else:
             run_relay(ctx, b, "TestVerifN2HCorr", "n2h", corr_broken, ctx.budget(1800, 18000))
+            n2h_tool = c20_opts.build_tool(ctx, "apps/nsq_to_http", "nsq_to_http_real")
+            c20_opts.opts_leg(ctx, b, "TestVerifN2HOpts", "n2h_opts", corr_broken, env={"VF_E8_N2H_BIN": n2h_tool or ""})
         if b:
             giveup(ctx, b, corr_broken)
     if (ctx.broken_ties or corr_broken) and not ctx.violations:
